@@ -8,6 +8,15 @@ Request:  `clean <interval> <ocsp 0|1> <certs 0|1> <grace> <hex inst> <now> <sto
 `<store>`: `-` or entries joined by `,`, each `<hex key>=<class>`; class `d` (directory),
 `o` (file with no reading) or `f;<staple>;<cert>;<last>` with staple `x|n|<int>`,
 cert `x|<int>`, last `x|z/<hex inst>|<int>/<hex inst>`.
+
+Request:  `cleanf <the same arguments> <faults> => <the same observables>`: a cleaning during
+which the storage calls listed in `<faults>` (`<kind><ordinal>@<hex key>` joined by `,`; kind
+`i` List, `l` Load, `t` Stat, `D` Delete, `S` Store) failed with a transient error before
+reaching the back end. The model knows no I/O errors and answers `*`; the specification judges
+what holds whatever fails: nothing altered or created, every key that is gone justified
+(`justifiedB`, sound by `C18_spec_sound`), nothing deleted and the record untouched when the
+recorded cleaning is recent or unreadable, the record afterwards either the old one or this
+cleaning's, this cleaning's when it reports success, and the lock bracket.
 -/
 namespace CM.Drv.C18
 open CM.Wire CM.Clean
@@ -95,8 +104,45 @@ def specVerdict (o : Opts) (now : Int) (s : Store) (impl : List String) : String
       else "ok"
   | _ => "-"
 
+/-- what must hold of a cleaning however many of its storage calls fail -/
+def specVerdictF (o : Opts) (now : Int) (s : Store) (impl : List String) : String :=
+  match impl with
+  | [res, del, chg, last, log] =>
+    match decKeys del with
+    | none => "bad-op"
+    | some dk =>
+      let s' := s.filter (fun e => !dk.contains e.1)
+      let lc := lastCheck o now s
+      let acts := log.splitOn ","
+      let old := showLast (get s lastKey)
+      let new := showLast (some (record now o.inst))
+      if chg ≠ "-" then "bad:frame-altered-or-created"
+      else if dk.any (fun k => (get s k).isNone) then "bad-op"
+      else if dk.any (fun k => !justifiedB o now s s' k) then "bad:deleted-unjustified"
+      else if lc = .recent && (del ≠ "-" || last ≠ old) then "bad:interval-ignored"
+      else if (lc = .loadErr || lc = .decodeErr) && (del ≠ "-" || last ≠ old) then "bad:changed-after-error"
+      else if last ≠ old && last ≠ new then "bad:record-wrong"
+      else if lc = .go && res = "ok" && last ≠ new then "bad:not-recorded"
+      else if acts.head? ≠ some "L" || acts.getLast? ≠ some "U" ||
+          ((acts.drop 1).dropLast).any (fun a => a = "L" || a = "U") then "bad:not-locked"
+      else "ok"
+  | _ => "-"
+
+def faultKinds (faults : String) : String :=
+  String.mk (((faults.splitOn ",").filterMap (fun f => f.toList.head?)).eraseDups)
+
 def handle (args impl : List String) : String :=
   match args with
+  | ["cleanf", iv, oc, ce, gr, inst, now, store, faults] =>
+    match iv.toInt?, gr.toInt?, decStr inst, now.toInt?, decStore store with
+    | some iv, some gr, some inst, some now, some s =>
+      let o : Opts := { interval := iv, ocsp := oc = "1", certs := ce = "1", grace := gr, inst := inst }
+      let tag := "fault:" ++ faultKinds faults ++
+        (match impl with
+         | [res, del, _, _, _] => "+" ++ res ++ (if del ≠ "-" then "+del" else "")
+         | _ => "")
+      reply "*" (specVerdictF o now s impl) tag
+    | _, _, _, _, _ => bad
   | ["clean", iv, oc, ce, gr, inst, now, store] =>
     match iv.toInt?, gr.toInt?, decStr inst, now.toInt?, decStore store with
     | some iv, some gr, some inst, some now, some s =>
